@@ -100,6 +100,7 @@ def oracle_c04_stats(h):
     seen_digest = set()
     pooled = {}  # (model, variable, row) -> [label counts, draws, ops]   over panels with pairwise different seeds
     pooled_seeds = {}  # model -> seeds already pooled
+    disp_session = [0.0, 0, []]  # Pearson statistic, degrees of freedom, ops - over panels with pairwise different seeds
     for r in h.ok("SIMULATE"):
         if "result" not in r:
             continue
@@ -122,6 +123,7 @@ def oracle_c04_stats(h):
         per = [frame_rows(fd, t)[0] for t in range(T)]
         idx = np.arange(n)
         bad_zero = None
+        disp = [0.0, 0]  # Pearson statistic and degrees of freedom accumulated over the rows of the panel
         sd = op.get("seed")
         sd = 12345 if sd is None else int(sd)
         pool_this = sd not in pooled_seeds.setdefault(op["model_id"], set())
@@ -152,6 +154,17 @@ def oracle_c04_stats(h):
                         e[1] += int(cnt[ri].sum())
                         if r["id"] not in e[2]:
                             e[2].append(r["id"])
+                # under-dispersion: Pearson statistic of every sufficiently large row (too SMALL a total means
+                # the counts sit closer to their expectations than independent draws allow: stratified,
+                # antithetic or quasi-random "variance reduction" across agents)
+                cnt_all = np.bincount(rowid * L + x, minlength=len(rows) * L).reshape(len(rows), L)
+                for ri in range(len(rows)):
+                    pos = rows[ri] > 0
+                    m_r = int(cnt_all[ri].sum())
+                    if pos.sum() >= 2 and m_r * rows[ri][pos].min() >= 10.0:
+                        e_ = m_r * rows[ri][pos]
+                        disp[0] += float((((cnt_all[ri][pos] - e_) ** 2) / e_).sum())
+                        disp[1] += int(pos.sum()) - 1
                 feats = [("all agents of the cell", np.zeros(n, dtype=np.int64), 1)]
                 for mod in MODULI:
                     feats.append((f"agent index mod {mod}", idx % mod, mod))
@@ -197,6 +210,25 @@ def oracle_c04_stats(h):
                     pvals.append((float(pv[j]), len(pv), desc))
         if bad_zero:
             out.append(_viol("C04", "zero-probability-label-drawn", r, f"op {r['id']} [{op['sig']}]: {bad_zero}", h.plan))
+        if pool_this:
+            disp_session[0] += disp[0]
+            disp_session[1] += disp[1]
+            disp_session[2].append(r["id"])
+        if disp[1] >= 40:
+            from scipy.stats import chi2
+
+            p_low = float(chi2.cdf(disp[0], disp[1]))
+            summary["min_dispersion_ratio"] = min(summary.get("min_dispersion_ratio", 9.9), disp[0] / disp[1])
+            if p_low < 1e-15:
+                out.append(
+                    _viol(
+                        "C04", "distribution", r,
+                        f"op {r['id']} [{op['sig']}] ({n} agents): label counts are closer to their expectations than independent draws allow: "
+                        f"Pearson statistic {disp[0]:.1f} on {disp[1]} degrees of freedom (expected about {disp[1]}), lower-tail p = {p_low:.3g} < 1e-15 "
+                        f"(draws are not independent across agents: stratified / antithetic / quasi-random sampling)",
+                        h.plan,
+                    )
+                )
         n_tests = sum(k for _, k, _ in pvals)
         summary["tests"] += n_tests
         if pvals:
@@ -212,6 +244,20 @@ def oracle_c04_stats(h):
                         h.plan,
                     )
                 )
+    if disp_session[1] >= 40:
+        from scipy.stats import chi2
+
+        p_low = float(chi2.cdf(disp_session[0], disp_session[1]))
+        summary["session_dispersion_ratio"] = round(disp_session[0] / disp_session[1], 3)
+        if p_low < 1e-15:
+            out.append(
+                _viol(
+                    "C04", "distribution", h.by_id[disp_session[2][0]],
+                    f"pooled over ops {disp_session[2]}: label counts are closer to their expectations than independent draws allow: Pearson statistic "
+                    f"{disp_session[0]:.1f} on {disp_session[1]} degrees of freedom, lower-tail p = {p_low:.3g} < 1e-15 (stratified / antithetic / quasi-random sampling across agents)",
+                    h.plan,
+                )
+            )
     # pooled over the panels of the run that were simulated with pairwise different seeds (independent
     # draws): label counts per (variable, row) are Binomial(total draws, row[label]) - several times
     # the power of a single panel against a small systematic bias
